@@ -72,6 +72,7 @@ def run(ctx):
     rule_vlq(ctx, rci)
     rule_bpm_assignment(ctx, rci)
     rule_track_count(ctx, rci)
+    rule_key_every_bar(ctx, rci)
     # the round trip is reader o writer: the reader rules above decode exactly what the writer's primitives emit;
     # that the writer emits the music's event stream (delays included) is C16's stream rule, discharged here as well
     from . import c16
@@ -470,3 +471,47 @@ def rule_track_count(ctx, rci):
             got = len(ts) if isinstance(ts, list) else None
         ctx.check(got == len(tracks), R, "track-count[%s]" % label, fm.where(), "MIDI_to_Composition(<format 1 file with the tracks: %s>)" % label,
                   "%s tracks come back for %d chunks: %s" % (got, len(tracks), [(x.kind, short(repr(x.value), 60)) for x in p]))
+
+
+def rule_key_every_bar(ctx, rci):
+    """The key (and meter) of a track in one key come back on every bar the reader opens, not only on the first: a key
+    signature, then five quarter notes -- two bars."""
+    R = "R-C17-3"
+    repo = ctx.repo
+    fm = repo.find_method(rci, "MIDI_to_Composition")
+    fe = repo.find_method(rci, "parse_midi_event")
+
+    def decode_event(data):
+        p = explore(interp_factory(repo), lambda it: it.call_function(fe, [reader_obj(rci), md.AFile(data[1:])], {}))
+        if len(p) != 1 or p[0].kind != "return":
+            raise AnalysisError("reader cannot parse the writer's event %r: %s" % (data, [(x.kind, x.value) for x in p]))
+        return p[0].value[0]
+    tempo = decode_event(writer_bytes(repo, "set_tempo_event", [120]))
+    for key, meter in (("Eb", (4, 4)), ("f#", (3, 4)), ("A", (2, 4)), ("c", (4, 4))):
+        events = [[0, tempo], [0, decode_event(writer_bytes(repo, "time_signature_event", [meter]))], [0, decode_event(writer_bytes(repo, "key_signature_event", [key]))]]
+        n_notes = meter[0] + 3
+        for k in range(n_notes):
+            events.append([0, decode_event(writer_bytes(repo, "note_on", [1, 60 + k, 64]))])
+            events.append([72, decode_event(writer_bytes(repo, "note_off", [1, 60 + k, 64]))])
+        pk = "%s.MidiFile.parse_midi_file" % MI
+        summ = {pk: lambda it, a, k, n, events=events: fake_file([list(e) for e in events])}
+        try:
+            p = explore(interp_factory(repo, summ), lambda it: it.call_function(fm, [reader_obj(rci), "file.mid"], {}))
+        except CannotDecide as e:
+            raise AnalysisError("MIDI_to_Composition on %d quarter notes in %s: %s" % (n_notes, key, e))
+        ok, why = len(p) == 1 and p[0].kind == "return" and isinstance(p[0].value, tuple), "outcome %s" % [(x.kind, short(repr(x.value), 80)) for x in p]
+        if ok:
+            try:
+                bars = p[0].value[0].attrs["tracks"][0].attrs["bars"]
+                got = []
+                for b in bars:
+                    k_ = b.attrs["key"]
+                    got.append((k_.attrs.get("key") if isinstance(k_, AObj) else k_, b.attrs["meter"], len(b.attrs["bar"])))
+                sounding = [g for g in got if g[2] > 0]
+                if len(sounding) < 2:
+                    ok, why = False, "%d quarter notes in %s/%s come back in %d bars" % ((n_notes,) + meter + (len(sounding),))
+                elif any(g[0] != key or tuple(g[1]) != meter for g in sounding):
+                    ok, why = False, "written in %s %s/%s, the bars come back as %s" % ((key,) + meter + (got,))
+            except (AttributeError, KeyError, IndexError, TypeError) as e:
+                ok, why = False, "cannot read the rebuilt bars (%s: %s)" % (type(e).__name__, e)
+        ctx.check(ok, R, "key-every-bar[%s %d/%d]" % ((key,) + meter), fm.where(), "MIDI_to_Composition(<%d quarter notes in %s %d/%d>)" % ((n_notes, key) + meter), why)
